@@ -14,6 +14,9 @@
 -/
 import SSEPyVerif.Driver.Tables
 import SSEPyVerif.Model.Schemes.Chain
+import SSEPyVerif.Model.Schemes.PiPtr
+import SSEPyVerif.Model.Schemes.Levels
+import SSEPyVerif.Model.Schemes.SSE2
 namespace SSEPy.Driver
 open SSEPy.Proto SSEPy.Sch
 
@@ -53,10 +56,69 @@ def chainOps (cfg : ChainCfg) : SchemeOps where
     let (a, b) ← Chain.token cfg lv K w
     pure [a, b]
 
+def showCells (a : List (Option Bytes)) : String :=
+  showList (fun c => match c with | some b => showBytes b | none => "N") a
+
+def piPtrOps (cfg : PiPtrCfg) : SchemeOps where
+  keyGen t := do let (k, t') ← PiPtr.keyGen cfg t; pure ([k], t')
+  setup lv key db t := do
+    let K ← key1 key
+    let (e, t') ← PiPtr.setup cfg lv K db t
+    pure ({ dump := "D " ++ showTable e.D ++ " | A " ++ showCells e.A,
+            search := fun lv tk => do PiPtr.search cfg lv e (← tok2 tk) }, t')
+  token lv key w := do
+    let K ← key1 key
+    let (a, b) ← PiPtr.token cfg lv K w
+    pure [a, b]
+
+def ct14Ops (cfg : CT14Cfg) : SchemeOps where
+  keyGen t := do let (k, t') ← CT14.keyGen cfg t; pure ([k], t')
+  setup lv key db t := do
+    let K ← key1 key
+    let (HT, t') ← CT14.setup cfg lv K db t
+    pure ({ dump := "HT " ++ " | ".intercalate (HT.map showTable),
+            search := fun lv tk => do CT14.search cfg lv HT (← tok2 tk) }, t')
+  token lv key w := do
+    let K ← key1 key
+    let (a, b) ← CT14.token cfg lv K w
+    pure [a, b]
+
+def anssOps (cfg : ANSSCfg) : SchemeOps where
+  keyGen t := do let (k, t') ← ANSS16.keyGen cfg t; pure ([k], t')
+  setup lv key db t := do
+    let K ← key1 key
+    let (e, t') ← ANSS16.setup cfg lv K db t
+    pure ({ dump := "S " ++ showTable e.HTS ++ " | L " ++ " | ".intercalate (e.HTL.map showTable),
+            search := fun lv tk => match tk with
+              | [a, b, c, d] => ANSS16.search cfg lv e { li := a, Ki := b, liP := c, KiP := d }
+              | _ => .error .typeError }, t')
+  token lv key w := do
+    let K ← key1 key
+    let tk ← ANSS16.token cfg lv K w
+    pure [tk.li, tk.Ki, tk.liP, tk.KiP]
+
+def sse2Ops (cfg : SSE2Cfg) : SchemeOps where
+  keyGen t := do let (a, b, t') ← SSE2.keyGen cfg t; pure ([a, b], t')
+  setup lv key db t := do
+    match key with
+    | [K1, _] =>
+      let I ← SSE2.setup cfg lv K1 db
+      pure ({ dump := "I " ++ showList (fun p => toString p.1 ++ ":" ++ showBytes p.2) I,
+              search := fun _ tk => .ok (SSE2.search I (tk.map fromBE)) }, t)
+    | _ => throw .typeError
+  token lv key w :=
+    match key with
+    | [K1, _] => do pure ((← SSE2.token cfg lv K1 w).map natToBytesMin)
+    | _ => throw .typeError
+
 def buildScheme (name : String) (raw : RawCfg) : Except Err SchemeOps :=
   match name with
   | "PiBas" => do pure (chainOps (← PiBas.cfgBuild raw))
   | "PiPack" => do pure (chainOps (← PiPack.cfgBuild raw))
+  | "PiPtr" => do pure (piPtrOps (← PiPtr.cfgBuild raw))
+  | "CT14" => do pure (ct14Ops (← CT14.cfgBuild raw))
+  | "SSE2" => do pure (sse2Ops (← SSE2.cfgBuild raw))
+  | "ANSS16" => do pure (anssOps (← ANSS16.cfgBuild raw))
   | _ => .error .other
 
 structure SchD where
